@@ -36,6 +36,10 @@ def scenarios(tier):
     items = []
     for (sc, bound) in c04.configs(tier):
         n = len(sc['cas'])
+        if bound == 0 and any(c.get('bypass') for c in sc['cas']):
+            if n == 2 or not quick:
+                items.append((sc, 0))         # a bypassed, started CA contended by the others
+            continue
         if bound == 0:
             # uniform-latency families: keep the contended ones on a thinner delay grid
             dl = tuple(c['delay'] for c in sc['cas'])
@@ -47,6 +51,7 @@ def scenarios(tier):
             if quick and n > 2:
                 continue
             items.append((sc, 1))
+    # claiming bypassed and started, then contended (the C04 families with a bypassed CA are included above when bound == 0)
     # claiming bypassed, and never started
     for aac in (0, 1):
         sc = {'cas': [{'idn': 1, 'aac': aac, 'addr': 128, 'delay': 0.0, 'never': True}, {'idn': 2, 'aac': aac, 'addr': 129, 'delay': 0.0}],
